@@ -1,41 +1,51 @@
 /* Unit fa_reverse (DESIGN.md 5-C10): ExplicitFiniteAutCore::Reverse.
    PROVENANCE: every AddTransition(x, a, y) on the result has (x, a, y) = (r, a, l) for the edge l -a-> r under the three cursors.
    COMPLETENESS: for an arbitrary witness edge wL -wS-> wR of the source, its reversal has been added when the loops finish.
-   SWAP: the result's final states are assigned from the start states of the source and vice versa. */
+   SWAP: the result's final states are assigned from the start states of the source and vice versa.
+   WF-START (representation invariant every other operation and DumpToString rely on: GetStartSymbols(s) dereferences
+   startStateToSymbols_.find(s) unconditionally): for an ARBITRARY state wf, if wf is a start state of the result then the result's
+   startStateToSymbols_ has an entry for wf.  The operand is well-formed: it has an entry for wf iff wf is one of ITS start states (st_wf). */
 P1 cell_e1; P2 cell_e2; uint64_t cell_e3; CLUF cell_cluster;
 uint64_t g_L, g_S, g_R; FA* g_res; FA* g_src; uint64_t g_add_calls;
 uint64_t wL, wS, wR;                  /* witness edge of the source (arbitrary, fixed by the harness) */
 _Bool g_seen1, g_seen2, g_seen3;      /* the witness cluster / symbol entry / target has been handed out by the current traversal */
 _Bool g_cur1w, g_cur2w;               /* the element under the outer / middle cursor is the witness one */
 _Bool g_added_w;                      /* AddTransition(wR, wS, wL) has been called on the result */
+_Bool fin_wf, st_wf, g_res_start_wf, g_res_entry_wf, seen_f; uint64_t wf, cell_f;
 uint64_t g_ss_assigns; void *g_ssa_dst1, *g_ssa_src1, *g_ssa_dst2, *g_ssa_src2;
-#define RG g_L, g_S, g_R, g_add_calls, cell_e1, cell_e2, cell_e3, g_seen1, g_seen2, g_seen3, g_cur1w, g_cur2w, g_added_w, g_ss_assigns, g_ssa_dst1, g_ssa_src1, g_ssa_dst2, g_ssa_src2
+#define RG g_L, g_S, g_R, g_add_calls, cell_e1, cell_e2, cell_e3, g_seen1, g_seen2, g_seen3, g_cur1w, g_cur2w, g_added_w, g_ss_assigns, g_ssa_dst1, g_ssa_src1, g_ssa_dst2, g_ssa_src2, g_res_start_wf, g_res_entry_wf, seen_f, cell_f
 #define CONTRACT_REV \
   __CPROVER_requires(v_agg_result == g_res && v_this == g_src && !g_seen1 && !g_added_w && g_ss_assigns == 0) \
   __CPROVER_assigns(RG) \
   __CPROVER_ensures(g_added_w) \
+  __CPROVER_ensures(g_res_start_wf ==> g_res_entry_wf) \
   __CPROVER_ensures(g_ss_assigns == 2 && g_ssa_dst1 == (void*)&g_res->f0 && g_ssa_src1 == (void*)&g_src->f1 && g_ssa_dst2 == (void*)&g_res->f1 && g_ssa_src2 == (void*)&g_src->f0)
-#define LOOPASG_REV__B_for_cond   , g_L, g_S, g_R, g_add_calls, cell_e1, cell_e2, cell_e3, g_seen1, g_seen2, g_seen3, g_cur1w, g_cur2w, g_added_w
-#define LOOPASG_REV__B_for_cond24 , g_S, g_R, g_add_calls, cell_e2, cell_e3, g_seen2, g_seen3, g_cur2w, g_added_w
-#define LOOPASG_REV__B_for_cond37 , g_R, g_add_calls, cell_e3, g_seen3, g_added_w
-#define LOOP_REV__B_for_cond \
-  __CPROVER_loop_invariant((v___begin1_slot.f0.f0 == 0 ==> g_seen1)) \
+#define LOOPASG_REV__L_CLUSTERS   , g_L, g_S, g_R, g_add_calls, cell_e1, cell_e2, cell_e3, g_seen1, g_seen2, g_seen3, g_cur1w, g_cur2w, g_added_w
+#define LOOPASG_REV__L_SYMS , g_S, g_R, g_add_calls, cell_e2, cell_e3, g_seen2, g_seen3, g_cur2w, g_added_w
+#define LOOPASG_REV__L_TARGETS , g_R, g_add_calls, cell_e3, g_seen3, g_added_w
+#define LOOP_REV__L_CLUSTERS \
+  __CPROVER_loop_invariant((BEGIN_REV__L_CLUSTERS.f0.f0 == 0 ==> g_seen1)) \
   __CPROVER_loop_invariant((g_seen1 ==> g_added_w)) \
-  __CPROVER_loop_invariant(v___end1_slot.f0.f0 == 0)
-#define LOOP_REV__B_for_cond24 \
+  __CPROVER_loop_invariant(END_REV__L_CLUSTERS.f0.f0 == 0)
+#define LOOP_REV__L_SYMS \
   __CPROVER_loop_invariant(v_stateToCluster_slot.f0 == g_L) \
   __CPROVER_loop_invariant((g_cur1w ==> g_L == wL)) \
-  __CPROVER_loop_invariant(v___end2_slot.f0.f0 == 0) \
-  __CPROVER_loop_invariant(((g_cur1w && v___begin2_slot.f0.f0 == 0) ==> g_seen2)) \
+  __CPROVER_loop_invariant(END_REV__L_SYMS.f0.f0 == 0) \
+  __CPROVER_loop_invariant(((g_cur1w && BEGIN_REV__L_SYMS.f0.f0 == 0) ==> g_seen2)) \
   __CPROVER_loop_invariant(((g_cur1w && g_seen2) ==> g_added_w)) \
   __CPROVER_loop_invariant(((!g_cur1w && g_seen1) ==> g_added_w))
-#define LOOP_REV__B_for_cond37 \
+#define LOOP_REV__L_TARGETS \
   __CPROVER_loop_invariant(v_stateToCluster_slot.f0 == g_L) \
   __CPROVER_loop_invariant(v_symbolToSet_slot.f0 == g_S) \
   __CPROVER_loop_invariant((g_cur1w ==> g_L == wL)) \
   __CPROVER_loop_invariant((g_cur2w ==> g_S == wS)) \
-  __CPROVER_loop_invariant(v___end3_slot.f0.f0 == 0) \
-  __CPROVER_loop_invariant(((g_cur1w && g_cur2w && v___begin3_slot.f0.f0 == 0) ==> g_seen3)) \
+  __CPROVER_loop_invariant(END_REV__L_TARGETS.f0.f0 == 0) \
+  __CPROVER_loop_invariant(((g_cur1w && g_cur2w && BEGIN_REV__L_TARGETS.f0.f0 == 0) ==> g_seen3)) \
   __CPROVER_loop_invariant(((g_cur1w && g_cur2w && g_seen3) ==> g_added_w)) \
   __CPROVER_loop_invariant(((!g_cur1w && g_seen1) ==> g_added_w)) \
   __CPROVER_loop_invariant(((g_cur1w && !g_cur2w && g_seen2) ==> g_added_w))
+#define LOOPASG_REV__L_FINALS , seen_f, cell_f, g_res_entry_wf
+#define LOOP_REV__L_FINALS \
+  __CPROVER_loop_invariant(END_REV__L_FINALS.f0.f0 == 0 && (__CPROVER_loop_entry(g_res_entry_wf) ==> g_res_entry_wf)) \
+  __CPROVER_loop_invariant((fin_wf && BEGIN_REV__L_FINALS.f0.f0 == 0) ==> seen_f) \
+  __CPROVER_loop_invariant((fin_wf && seen_f) ==> g_res_entry_wf)
